@@ -63,7 +63,7 @@ PROPS = {
         "assumptions": [],
     },
     "C07": {
-        "suites": [("gw", "counts"), ("gw", "malformed"), ("gw", "mixed"), ("pure", "rpc")],
+        "suites": [("gw", "counts"), ("gw", "malformed"), ("gw", "mixed"), ("pure", "rpc"), ("gw", "burst")],
         "theorems_carry": "the dispatcher is total: every method string is version / answered invalid / handed on with a valid rid; an unsubscribe is always answered with exactly one of three outcomes; the ready-callback counter of a request tree fires its reply exactly once under the registration discipline of collectRefs, for every order in which the subscriptions load (abstract machine Ready)",
         "correspondence_only": "that every registered continuation runs exactly once: lockstep + response monitor at quiescence. Known findings D2, D10.",
         "assumptions": [],
@@ -81,7 +81,7 @@ PROPS = {
         "assumptions": ["eviction is fired by the harness (VerifFlushEvictions) instead of the 5 s timer"],
     },
     "C10": {
-        "suites": [("gw", "access"), ("gw", "mixed")],
+        "suites": [("gw", "access"), ("gw", "mixed"), ("pure", "wsauth")],
         "theorems_carry": "{cid} expansion: identity without the tag, validity preserved with the connection's id; every payload starts with the requester's id and carries the token handed in; a token reset addresses a connection iff it has a token id and the reset names it, never a connection without token id (token_reset_addresses_iff)",
         "correspondence_only": "that events, token events and token resets touch only the addressed connections: lockstep with 2-4 connections + frame scan for connection ids + payload cid/token monitor",
         "assumptions": ["connection ids are unique (xid)"],
